@@ -145,7 +145,7 @@ Proof.
       rewrite Hu3. cbn [negb]. destruct (Hsimple Hu3) as (bc' & m' & Hadd & Hrep').
       rewrite Hadd. eexists. eexists. split; [reflexivity|]. cbn [fst snd]. split; [exact Hrep' | reflexivity].
     + (* the remainder absorbs the free chunk that follows *)
-      rewrite Hnx in *. set (nxsz := c_sz nxc) in *.
+      pose proof Hnx as Enxa. rewrite Enxa in Hnext, Hn1, Hn3, Hn4 |- *. set (nxsz := c_sz nxc) in *.
       pose proof (get_bin_index_range nxsz) as Hbi. set (bi := get_bin_index nxsz) in *.
       assert (Hu3 : is_used m3 nx0 = false) by (rewrite Hfr3; apply (mi_member_not_used _ _ _ _ _ _ HM bi nx0 Hbi Hnext)).
       rewrite Hu3. cbn [negb].
@@ -160,7 +160,7 @@ Proof.
       set (ba1 := bins_remove bins_a bi nx0) in *.
       (* the real unlink happens on m3 *)
       assert (Hsz3 : n_size m3 nx0 = nxsz).
-      { unfold n_size. rewrite Hm3 by (unfold sp, nx0 in *; lia). apply (mi_size _ _ _ _ _ _ HM nxc Hnin). }
+      { unfold n_size. rewrite Hm3 by (unfold sp, nx0 in *; lia). pose proof (mi_size _ _ _ _ _ _ HM nxc Hnin) as Hq. rewrite Enxa in Hq. exact Hq. }
       assert (Hrm3 : remove_node bins_c m3 nx0 = (bc1, unlink_mem m3 nx0)).
       { unfold remove_node. rewrite Hsz3. fold bi. unfold remove_bin_node in Hrm |- *.
         assert (En : n_next m3x nx0 = n_next m3 nx0) by (unfold n_next, m3x; mm; reflexivity).
@@ -187,7 +187,7 @@ Proof.
       { pose proof (mi_size _ _ _ _ _ _ HM1 x2 Hx2in1) as Hq. cbn [c_addr c_sz x2] in Hq. unfold n_size in *.
         rewrite HUx in Hq. rewrite mget_mset_other in Hq by (unfold sp, nx0; lia). exact Hq. }
       assert (HszU_nx : n_size mU nx0 = nxsz).
-      { pose proof (mi_size _ _ _ _ _ _ HM1 nxc Hnin1) as Hq. rewrite Hnx in Hq. unfold n_size in *.
+      { pose proof (mi_size _ _ _ _ _ _ HM1 nxc Hnin1) as Hq. rewrite Enxa in Hq. unfold n_size in *.
         rewrite HUx in Hq. rewrite mget_mset_other in Hq by lia. exact Hq. }
       rewrite HszU_sp, HszU_nx.
       set (rest' := rest + NODE + nxsz).
@@ -203,7 +203,7 @@ Proof.
       (* M5 on the virtual memory *)
       assert (HM1' : MI hs he mUx bc1 ((pre ++ [x1]) ++ x2 :: nxc :: post') ba1) by (rewrite <- app_assoc; exact HM1).
       assert (Hnxnot : forall j, 0 <= j < BIN_COUNT -> ~ In (c_addr nxc) (bin_nth ba1 j)).
-      { rewrite Hnx. apply not_in_after_remove; assumption. }
+      { rewrite Enxa. apply not_in_after_remove; assumption. }
       assert (HM5x : MI hs he m5x bc1 ((pre ++ [x1]) ++ mkchunk sp rest' (c_used x2) :: post') ba1).
       { apply (M5_merge hs he mUx m5x bc1 (pre ++ [x1]) x2 nxc post' ba1 HM1' Hnxnot); cbn [c_addr c_sz x2]; fold nxsz; fold rest'; fold nx2; unfold m5x.
         - mm. reflexivity.
@@ -241,7 +241,147 @@ Proof.
       destruct (M2_push hs he m5 bc1 _ ba1 x2' HM5 Hx2'in eq_refl Hspnot1) as (bc2 & m6 & Hadd & HM6 & _).
       cbn [c_addr c_sz x2'] in Hadd, HM6. fold m5. rewrite Hadd.
       eexists. eexists. split; [reflexivity|]. cbn [fst snd]. split; [|reflexivity].
-      fold nxsz. fold bi. rewrite (w64_small (rest + NODE)) by (unfold rest; lia).
-      rewrite (w64_small (rest + NODE + nxsz)) by (unfold rest, nxsz; lia). fold rest'.
       pose proof (mi_rep _ _ _ _ _ _ HM6) as Hfin. rewrite <- app_assoc in Hfin. exact Hfin.
+Qed.
+
+Lemma heap_realloc_raw_sim c hs he m bins_c chunks bins_a live i b n :
+  raw_inv hs he chunks bins_a live -> Rep he m bins_c chunks bins_a -> he - hs <= h_size c ->
+  nth_error live i = Some b -> 0 < n < two64 ->
+  exists bins_c' m' ch' ba' q,
+    ha_realloc_raw chunks bins_a (b_addr b) n = HOk (ch', ba', q) /\
+    heap_realloc_raw c bins_c m (b_addr b) n = HOk (bins_c', m', q) /\
+    Rep he m' bins_c' ch' ba'.
+Proof.
+  intros Hinv Hrep Hhs Hn Hn0.
+  pose proof (MI_of_inv _ _ _ _ _ _ _ Hinv Hrep) as HM.
+  destruct (live_chunk _ _ _ _ _ _ _ Hinv Hn) as (pre & x & post & Ech & Hu & Ha & Hsz & Hnz & Hmis & Hw & Hfind).
+  subst chunks.
+  pose proof Hinv as [Hpos Htop Ht Hal Hb Hl].
+  pose proof NODE_eq as HN. pose proof MIN_range as HMr.
+  assert (H64 : two64 = 18446744073709551616) by reflexivity.
+  set (a := c_addr x) in *.
+  assert (Hxin : In x (pre ++ x :: post)) by (apply in_or_app; right; left; reflexivity).
+  destruct (chunk_bounds hs he _ Ht Hal x Hxin) as (Ha1 & Ha2 & Ha3 & Ha4). fold a in Ha1, Ha3, Ha4.
+  pose proof (MI_len _ _ _ _ _ _ HM) as HLa.
+  assert (Hcomp : forall z, In z (pre ++ x :: post) -> c_used z = false ->
+                  In (c_addr z) (bin_nth bins_a (get_bin_index (c_sz z)))).
+  { intros z Hz Hzf. destruct Hb as (_ & Hb). destruct (Hb _ (get_bin_index_range (c_sz z))) as [_ Hin]. apply Hin. exists z. auto. }
+  assert (Hflag : forall z, In z (pre ++ x :: post) -> is_used m (c_addr z) = c_used z).
+  { intros z Hz. apply (is_used_flag _ _ _ _ _ _ z HM Hz). intros Hzf. exists (get_bin_index (c_sz z)).
+    split; [apply get_bin_index_range | apply Hcomp; assumption]. }
+  unfold ha_realloc_raw. rewrite Hnz.
+  assert (E0 : (n =? 0) = false) by (apply Z.eqb_neq; lia). rewrite E0, Hmis, Hw, Hfind, Hu. cbn [negb].
+  unfold heap_realloc_raw. rewrite Hnz, E0. unfold get_ptr_node.
+  change (negb (Z.land (b_addr b) (ALLOC_ALIGN - 1) =? 0)) with (ptr_misaligned (b_addr b)). rewrite Hmis, Hw.
+  pose proof (Hflag x Hxin) as Hfx. fold a in Hfx. rewrite Hfx, Hu.
+  assert (Ea0 : (a =? 0) = false) by (apply Z.eqb_neq; lia). rewrite Ea0.
+  destruct (size_too_large n) eqn:Etl.
+  { eexists. eexists. eexists. eexists. eexists. split; [reflexivity|]. split; [reflexivity | exact Hrep]. }
+  apply size_too_large_spec in Etl.
+  destruct (aligned_size_spec n ltac:(lia)) as (Hs1 & Hs2 & Hs3).
+  set (size := aligned_size n) in *.
+  pose proof (mi_size _ _ _ _ _ _ HM x Hxin) as Hsx. fold a in Hsx. rewrite Hsx.
+  assert (Htl0 : forall nx post', post = nx :: post' ->
+     if c_used nx then is_used m (c_addr nx) = true else In (c_addr nx) (bin_nth bins_a (get_bin_index (c_sz nx)))).
+  { intros nx post' ->. assert (Hnin : In nx (pre ++ x :: nx :: post')) by (apply in_or_app; right; right; left; reflexivity).
+    destruct (c_used nx) eqn:E; [rewrite (Hflag nx Hnin); exact E | apply Hcomp; assumption]. }
+  (* the moving branch *)
+  assert (Hmove : exists bins_c' m' ch' ba' q,
+    (let '(ch, b1, newp) := ha_alloc_raw (pre ++ x :: post) bins_a size in
+     if newp =? 0 then HOk (ch, b1, 0)
+     else match ha_dealloc_raw ch b1 (b_addr b) with
+          | HOk (ch2, b2) => HOk (ch2, b2, newp)
+          | HPanic => HPanic
+          | HFuel => HFuel
+          end) = HOk (ch', ba', q) /\
+    match heap_alloc_raw c bins_c m size with
+    | HOk (bins, m0, newp) =>
+        if newp =? 0 then HOk (bins, m0, 0)
+        else match heap_dealloc_raw bins m0 (b_addr b) with
+             | HOk (bins0, m1) => HOk (bins0, m1, newp)
+             | HPanic => HPanic
+             | HFuel => HFuel
+             end
+    | HPanic => HPanic
+    | HFuel => HFuel
+    end = HOk (bins_c', m', q) /\ Rep he m' bins_c' ch' ba').
+  { destruct (heap_alloc_raw_sim c hs he m bins_c _ bins_a live size Hinv Hrep Hhs ltac:(lia)) as (bc1 & m1 & Hca & Hrep1).
+    destruct (ha_alloc_raw_ok hs he _ bins_a live size Hinv ltac:(lia)) as (ch & b1 & newp & Haa & Hcase).
+    rewrite Haa in *. cbn [fst snd] in *. rewrite Hca.
+    destruct Hcase as [(-> & -> & ->) | (Hnz1 & Hinv1)].
+    - cbn [Z.eqb]. eexists. eexists. eexists. eexists. eexists. split; [reflexivity|]. split; [reflexivity | exact Hrep1].
+    - apply Z.eqb_neq in Hnz1. rewrite Hnz1.
+      destruct (heap_dealloc_raw_sim hs he m1 bc1 ch b1 (mkblk newp size :: live) (S i) b Hinv1 Hrep1 Hn)
+        as (bc2 & m2 & ch2 & ba2 & Had & Hcd & Hrep2).
+      rewrite Had, Hcd. eexists. eexists. eexists. eexists. eexists. split; [reflexivity|]. split; [reflexivity | exact Hrep2]. }
+  destruct (size >? c_sz x) eqn:Eg.
+  - destruct post as [|nx post'].
+    { pose proof (tiled_next _ _ _ _ _ Ht) as Hnx. cbn [map hd] in Hnx. fold a in Hnx.
+      assert (Enext : next_adj m a = he).
+      { unfold next_adj. rewrite Hsx. rewrite (w64_small (a + NODE)) by lia. rewrite w64_small by lia. lia. }
+      rewrite Enext. destruct (rp_end _ _ _ _ _ Hrep) as [_ Eu]. rewrite Eu. cbn [negb andb]. exact Hmove. }
+    assert (Hnin : In nx (pre ++ x :: nx :: post')) by (apply in_or_app; right; right; left; reflexivity).
+    pose proof (tiled_next _ _ _ _ _ Ht) as Hnx. cbn [map hd] in Hnx. fold a in Hnx.
+    assert (Enext : next_adj m a = c_addr nx).
+    { unfold next_adj. rewrite Hsx. rewrite (w64_small (a + NODE)) by lia. rewrite w64_small by lia. lia. }
+    rewrite Enext. rewrite (Hflag nx Hnin). rewrite (mi_size _ _ _ _ _ _ HM nx Hnin).
+    destruct (negb (c_used nx) && (w64 (w64 (c_sz x + c_sz nx) + NODE) >=? size)) eqn:Ec; [|exact Hmove].
+    apply andb_prop in Ec. destruct Ec as [Ec1 Ec2]. apply negb_true_iff in Ec1.
+    destruct (chunk_bounds hs he _ Ht Hal nx Hnin) as (Hn1 & Hn2 & Hn3 & Hn4).
+    set (nxa := c_addr nx) in *. set (nxsz := c_sz nx) in *.
+    rewrite (w64_small (c_sz x + nxsz)) in * by lia. rewrite (w64_small (c_sz x + nxsz + NODE)) in * by lia.
+    rewrite Z.geb_leb in Ec2. apply Z.leb_le in Ec2.
+    pose proof (get_bin_index_range nxsz) as Hbi.
+    pose proof (Hcomp nx Hnin Ec1) as Hnbin. fold nxa in Hnbin. fold nxsz in Hnbin.
+    unfold remove_node. pose proof (mi_size _ _ _ _ _ _ HM nx Hnin) as Hsn. fold nxa in Hsn. fold nxsz in Hsn. rewrite Hsn.
+    destruct (M1_unlink hs he m bins_c _ _ _ nxa HM Hbi Hnbin) as (bc1 & Hrm & HM1 & _).
+    rewrite Hrm. set (m1 := unlink_mem m nxa) in *. set (ba1 := bins_remove bins_a (get_bin_index nxsz) nxa) in *.
+    pose proof (mi_size _ _ _ _ _ _ HM1 x Hxin) as Hs1x. fold a in Hs1x.
+    pose proof (mi_size _ _ _ _ _ _ HM1 nx Hnin) as Hs1n. fold nxa in Hs1n. fold nxsz in Hs1n.
+    rewrite Hs1x, Hs1n.
+    rewrite (w64_small (c_sz x + nxsz)) by lia. rewrite (w64_small (c_sz x + nxsz + NODE)) by lia.
+    set (msz := c_sz x + nxsz + NODE).
+    assert (Enext2 : next_adj (mset m1 a msz) a = a + NODE + msz).
+    { unfold next_adj, n_size. mm. rewrite (w64_small (a + NODE)) by lia. apply w64_small. unfold msz. lia. }
+    rewrite Enext2. set (m3 := mset (mset m1 a msz) (a + NODE + msz + 8) a).
+    assert (Hnxnot : forall j, 0 <= j < BIN_COUNT -> ~ In (c_addr nx) (bin_nth ba1 j)).
+    { fold nxa. apply not_in_after_remove; try assumption. apply (mi_good _ _ _ _ _ _ HM). }
+    assert (HMg : MI hs he m3 bc1 (pre ++ mkchunk a (c_sz x + NODE + c_sz nx) (c_used x) :: post') ba1).
+    { apply (M5_merge hs he m1 m3 bc1 pre x nx post' ba1 HM1 Hnxnot); fold a; fold nxsz; unfold m3, msz.
+      - mm. lia.
+      - replace (a + NODE + (c_sz x + NODE + nxsz) + 8) with (a + NODE + (c_sz x + nxsz + NODE) + 8) by lia. mm. reflexivity.
+      - intros w W1 W2. rewrite mget_mset_other by lia. rewrite mget_mset_other by lia. reflexivity. }
+    rewrite Hu in HMg. fold nxsz in HMg.
+    replace (c_sz x + NODE + nxsz) with msz in HMg by (unfold msz; lia).
+    set (x' := mkchunk a msz true) in *.
+    assert (Htlg : forall z post2, post' = z :: post2 ->
+       if c_used z then is_used m3 (c_addr z) = true else In (c_addr z) (bin_nth ba1 (get_bin_index (c_sz z)))).
+    { intros z post2 ->.
+      assert (Hzin : In z (pre ++ x :: nx :: z :: post2)) by (apply in_or_app; right; right; right; left; reflexivity).
+      assert (Hzing : In z (pre ++ x' :: z :: post2)) by (apply in_or_app; right; right; left; reflexivity).
+      destruct (c_used z) eqn:E.
+      - pose proof (rp_used _ _ _ _ _ (mi_rep _ _ _ _ _ _ HMg)) as HU. rewrite Forall_forall in HU. apply HU; assumption.
+      - unfold ba1. apply in_after_remove_other; try assumption; try apply get_bin_index_range.
+        + destruct (mi_good _ _ _ _ _ _ HM) as [Hg _]. destruct (Hg _ Hbi). assumption.
+        + assert (Ht' : tiled hs ((pre ++ [x]) ++ nx :: z :: post2) he) by (rewrite <- app_assoc; exact Ht).
+          destruct (tiled_mid _ _ _ _ _ Ht') as (m0 & _ & Em0 & _ & _ & _ & Hq2).
+          destruct (Hq2 z (or_introl eq_refl)) as (? & _). unfold nxa, nxsz in *. lia.
+        + apply Hcomp; assumption. }
+    destruct (shrink_sim hs he m3 bc1 pre x' post' ba1 size (b_addr b) HMg eq_refl ltac:(lia) Hs2 ltac:(cbn; unfold msz; lia) Htlg)
+      as (bc' & m' & Hsh & Hrep' & Hq).
+    cbn [c_addr x'] in Hsh. unfold c_shrink in Hsh.
+    exists bc', m', (fst (fst (ha_shrink pre x' post' ba1 size (b_addr b)))), (snd (fst (ha_shrink pre x' post' ba1 size (b_addr b)))), (b_addr b).
+    split; [|split; [|exact Hrep']].
+    + set (R := ha_shrink pre x' post' ba1 size (b_addr b)) in *.
+      change (HOk R = HOk (fst (fst R), snd (fst R), b_addr b)).
+      destruct R as [[c1 c2] c3]. cbn [fst snd] in *. subst c3. reflexivity.
+    + fold m3. exact Hsh.
+  - rewrite Z.gtb_ltb in Eg. apply Z.ltb_ge in Eg.
+    destruct (shrink_sim hs he m bins_c pre x post bins_a size (b_addr b) HM Hu ltac:(lia) Hs2 Eg Htl0)
+      as (bc' & m' & Hsh & Hrep' & Hq).
+    fold a in Hsh. unfold c_shrink in Hsh. rewrite Hsx in Hsh.
+    exists bc', m', (fst (fst (ha_shrink pre x post bins_a size (b_addr b)))), (snd (fst (ha_shrink pre x post bins_a size (b_addr b)))), (b_addr b).
+    split; [|split; [|exact Hrep']].
+    + destruct (ha_shrink pre x post bins_a size (b_addr b)) as [[c1 c2] c3] eqn:Es. cbn [fst snd] in *. subst c3. reflexivity.
+    + exact Hsh.
 Qed.
